@@ -839,3 +839,100 @@ func ruleRoute(p *Prog, r *Report) {
 		r.OK("ROUTE", key, at, fmt.Sprintf("%d sinks; every path from the decoded entry to the next iteration passes one", nSink))
 	}
 }
+
+// ruleRouteQueue: the second half of ROUTE. addTagBuffer may decline to queue a tag only for reasons of layout and
+// capacity (its offset lies behind the reader, the queue is full, its offset duplicates a queued one) — never for
+// which tag it is. Every return of addTagBuffer that is not preceded by a store of the tag into the queue must
+// depend only on conditions over offsets, the fill level and the log level.
+func ruleRouteQueue(p *Prog, r *Report) {
+	f := p.Func("exif2", "*ifdReader", "addTagBuffer")
+	key := "exif2.(*ifdReader).addTagBuffer | a tag is declined only for its offset or a full queue"
+	if f == nil || len(f.Params) < 2 {
+		r.Undecided("ROUTE", key, "-", "unresolved anchor")
+		return
+	}
+	lp := discoverLevelPreds(p, p.AllLibFns())
+	// blocks that store into the queue array
+	storeBlocks := map[*ssa.BasicBlock]bool{}
+	eachInstr(f, func(b *ssa.BasicBlock, _ int, in ssa.Instruction) {
+		if st, ok := in.(*ssa.Store); ok {
+			if ia, ok := st.Addr.(*ssa.IndexAddr); ok {
+				if fa, ok := ia.X.(*ssa.FieldAddr); ok && fieldName(fa.X.Type(), fa.Field) == "tag" {
+					storeBlocks[b] = true
+				}
+			}
+		}
+	})
+	if len(storeBlocks) == 0 {
+		r.Undecided("ROUTE", key, p.posStr(f.Pos()), "no store into the tag queue found")
+		return
+	}
+	identity := map[string]bool{"ID": true, "Ifd": true, "Type": true, "UnitCount": true, "IfdIndex": true, "ByteOrder": true}
+	var why func(v ssa.Value, depth int) string
+	why = func(v ssa.Value, depth int) string {
+		if depth > 8 {
+			return ""
+		}
+		switch x := v.(type) {
+		case *ssa.Call:
+			if isLevelCond(x, lp) {
+				return ""
+			}
+			if sc := x.Call.StaticCallee(); sc != nil {
+				if lp[sc] {
+					return ""
+				}
+				if _, isB := x.Call.Value.(*ssa.Builtin); !isB {
+					return "the result of " + fnName(sc)
+				}
+			}
+		case *ssa.Field:
+			if n := fieldNameV(x.X.Type(), x.Field); identity[n] {
+				return "the tag's " + n
+			}
+		case *ssa.FieldAddr:
+			if n := fieldName(x.X.Type(), x.Field); identity[n] && strings.HasSuffix(derefType(x.X.Type()).String(), "exif2.Tag") {
+				return "the tag's " + n
+			}
+		}
+		if in, ok := v.(ssa.Instruction); ok {
+			var ops []*ssa.Value
+			for _, op := range in.Operands(ops) {
+				if *op != nil {
+					if w := why(*op, depth+1); w != "" {
+						return w
+					}
+				}
+			}
+		}
+		return ""
+	}
+	bad := ""
+	n := 0
+	for _, b := range f.Blocks {
+		ret, ok := b.Instrs[len(b.Instrs)-1].(*ssa.Return)
+		if !ok {
+			continue
+		}
+		stored := false
+		for sb := range storeBlocks {
+			if sb == b || sb.Dominates(b) {
+				stored = true
+			}
+		}
+		if stored {
+			continue
+		}
+		n++
+		for _, cd := range condsAt(b) {
+			if w := why(cd.V, 0); w != "" {
+				bad = fmt.Sprintf("the return at %s leaves the tag unqueued under a condition on %s: tags are dropped for what they are, before parseTag's dispatch is consulted", p.posStr(instrPos(ret)), w)
+			}
+		}
+	}
+	if bad != "" {
+		r.Bad("ROUTE", key, p.posStr(f.Pos()), bad)
+	} else {
+		r.OK("ROUTE", key, p.posStr(f.Pos()), fmt.Sprintf("%d declining returns, each under conditions on offsets, fill level or log level only", n))
+	}
+}
